@@ -157,7 +157,7 @@ func (w *world) options() *store.Options {
 	o := store.DefaultOptions().WithSynced(false).WithEmbeddedValues(false).
 		WithMaxConcurrency(16).WithMaxIOConcurrency(w.m).WithFileSize(w.f * w.unit).
 		WithMaxTxEntries(8).WithMaxKeyLen(32).WithMaxValueLen(8 * w.unit).WithVLogCacheSize(w.cache).
-		WithWriteBufferSize(1 << 12).WithLogger(logger.NewMemoryLoggerWithLevel(logger.LogError))
+		WithVLogMaxOpenedFiles(512).WithWriteBufferSize(1 << 12).WithLogger(logger.NewMemoryLoggerWithLevel(logger.LogError))
 	o.WithIndexOptions(o.IndexOpts.WithFlushBufferSize(1 << 12).WithCacheSize(32).WithMaxActiveSnapshots(8))
 	o.WithAHTOptions(o.AHTOpts.WithWriteBufferSize(1 << 12))
 	return o
@@ -471,7 +471,8 @@ func (w *world) validate(phase string, expectReadable func(id uint64, e int) (bo
 }
 
 func ctxTimeout(d time.Duration) context.Context {
-	ctx, _ := context.WithTimeout(context.Background(), d) //nolint
+	ctx, cancel := context.WithTimeout(context.Background(), d)
+	_ = cancel // released when the deadline passes
 	return ctx
 }
 
